@@ -434,6 +434,41 @@ func main() {
 				}
 				return append(rr.FillBytes(make([]byte, 48)), ss.FillBytes(make([]byte, 48))...)
 			}
+			// a foreign request key in the request, the contents signed by the CLIENT's blinded key (the key
+			// the attester computes itself): the signature does not verify under the key the request carries
+			{
+				signWith := func(rk, enc []byte) []byte {
+					msg := append([]byte{0x00, 0x03}, rk...)
+					msg = append(msg, h.req.NameKeyID...)
+					msg = append(msg, byte(len(enc)>>8), byte(len(enc)))
+					msg = append(msg, enc...)
+					dg := sha512.Sum384(msg)
+					priv := &stdecdsa.PrivateKey{D: d}
+					priv.Curve = elliptic.P384()
+					priv.X, priv.Y = priv.Curve.ScalarBaseMult(d.Bytes())
+					rr, ss, err := stdecdsa.Sign(mc.NewStream(seedv, "c06-foreign-rk-sign"), priv, dg[:])
+					if err != nil {
+						panic(err)
+					}
+					return append(rr.FillBytes(make([]byte, 48)), ss.FillBytes(make([]byte, 48))...)
+				}
+				for oi, o := range hs {
+					if oi == hi {
+						continue
+					}
+					c := mk(h, tag+"foreign-request-key:contents-signed-by-the-client's-blinded-key")
+					c.RequestKey = hex.EncodeToString(o.req.RequestKey)
+					c.Signature = hex.EncodeToString(signWith(o.req.RequestKey, h.req.EncryptedTokenRequest))
+					add(c)
+				}
+				// and the generator itself as request key
+				gx, gy := elliptic.P384().Params().Gx, elliptic.P384().Params().Gy
+				g := elliptic.MarshalCompressed(elliptic.P384(), gx, gy)
+				c := mk(h, tag+"foreign-request-key:contents-signed-by-the-client's-blinded-key")
+				c.RequestKey = hex.EncodeToString(g)
+				c.Signature = hex.EncodeToString(signWith(g, h.req.EncryptedTokenRequest))
+				add(c)
+			}
 			for _, n := range []int{65535, 65536, 65537} {
 				enc := mc.Fill(seedv, "c06-big-ciphertext", n)
 				c := mk(h, tag+fmt.Sprintf("ciphertext-of-%d-bytes:signed-by-the-request-key", n))
